@@ -275,7 +275,11 @@ class Evaluator:
                 return acc
             raise AnalysisError("and/or on numbers in a kernel")
         if k == "ifexp":
-            c = self.ev(t[1])
+            try:
+                c = self.ev(t[1])
+            except AnalysisError:
+                # a condition that is not about numbers (a type / enum / None test): both branches are possible
+                c = frozenset({True, False})
             if not is_bool(c):
                 c = compare("!=", to_num(c), Abs({ZERO}))
             out = None
